@@ -265,6 +265,21 @@ def showBlocks (bs : List (Block CKw)) : String :=
   let kws := bs.map fun b => ",".intercalate (b.kws.map kwName)
   s!"{bs.length}|{times}|{"|".intercalate kws}"
 
+def ttypeName : TType → String
+  | .start => "START" | .dates => "DATES" | .tstep => "TSTEP" | .restart => "RESTART"
+
+/-- Restarted runs: block count, time types, start and end times (seconds), keyword names. -/
+def showBlocksR (bs : List (Block CKw)) : String :=
+  let tys := ",".intercalate (bs.map fun b => ttypeName b.ttype)
+  let times := ",".intercalate (bs.map fun b => toString (b.start / 1000))
+  let stops := ",".intercalate (bs.map fun b => match b.stop with | some t => toString (t / 1000) | none => "-")
+  let kws := bs.map fun b => ",".intercalate (b.kws.map kwName)
+  s!"{bs.length}|{tys}|{times}|{stops}|{"|".intercalate kws}"
+
+/-- The keywords loaded from the skipped part of a restarted run. -/
+def skiprestWhitelist (k : CKw) : Bool :=
+  ["VFPPROD", "VFPINJ", "RPTSCHED", "RPTRST", "TUNING", "MESSAGES"].contains (kwName k)
+
 def parseApp (s : String) : Option (Nat × String × List String) :=
   match s.splitOn ":" with
   | [n, a, ws] => some (n.toNat!, a, if ws = "-" then [] else ws.splitOn "/")
@@ -285,6 +300,13 @@ def handleOp (op : String) (args : List String) : String :=
     | some t, some kws =>
       match blocks t kws with
       | .ok bs => showBlocks bs
+      | .error _ => "err"
+    | _, _ => "bad-op"
+  | "sched.rblocks", [st, rstep, rtime, skip, enc] =>
+    match parseStart st, parseEnc enc with
+    | some t, some kws =>
+      match rblocks { rstep := rstep.toNat!, rtime := (rtime.toNat! : Int) * 1000, skiprest := skip = "1" } skiprestWhitelist t kws with
+      | .ok bs => showBlocksR bs
       | .error _ => "err"
     | _, _ => "bad-op"
   | "sched.obs", [k, cs, st, enc] =>
